@@ -48,8 +48,10 @@ def _copy_container(v, depth=2, memo=None, odepth=2):
         r = SDict((k, (_copy_container(x, depth - 1, memo, odepth) if depth > 1 else x)) for k, x in v.items())
         r.orig_id__ = getattr(v, 'orig_id__', id(v))
         return r
-    if memo is not None and odepth > 0 and _is_repo_obj(v) and id(v) not in memo:
-        snapshot(v, memo, odepth)
+    if memo is not None and odepth > 0 and _is_repo_obj(v):
+        em = memo.setdefault('elems__', {})
+        if id(v) not in em:
+            snapshot(v, em, min(odepth, 1))      # element objects: their own attributes only (for was(old, x))
     return v
 
 
@@ -283,7 +285,10 @@ def make_wrapper(key, cands, real, props):
         memo = {}
         old = S.Old(**{k: snapshot(v, memo) for k, v in env.items()})
         _collect_ids(tuple(env.values()), old.ids__)
-        old.snaps__ = memo
+        em = memo.pop('elems__', {})
+        while 'elems__' in em:
+            em.update(em.pop('elems__'))
+        old.snaps__ = {**em, **memo}
         fp_before = None
         if c.raises:
             fp_before = fingerprint(tuple(env.values()))
